@@ -1,11 +1,21 @@
 use crate::report::*;
 
 pub mod c01;
+pub mod c02;
+pub mod c03;
+pub mod c04;
+pub mod c12;
+pub mod c16;
 pub mod c18;
 
 pub fn jobs(prop: &str, tier: Tier) -> Option<(&'static str, Vec<Job>)> {
     Some(match prop {
         "C01" => ("model_checking", c01::jobs(tier)),
+        "C02" => ("model_checking", c02::jobs(tier)),
+        "C03" => ("model_checking", c03::jobs(tier)),
+        "C04" => ("model_checking", c04::jobs(tier)),
+        "C12" => ("model_checking", c12::jobs(tier)),
+        "C16" => ("model_checking", c16::jobs(tier)),
         "C18" => ("model_checking", c18::jobs(tier)),
         _ => return None,
     })
